@@ -18,7 +18,8 @@ RULE = ('random irreducible row-stochastic chains with small-denominator rationa
         'given in shuffled order as list / ndarray / scalar; containers ndarray + the 7 scipy *_matrix formats; '
         'lag in {1, 2.5, 10} (+ 1e-6, 1e6); populations given (ndarray/list/tuple/float32) or computed. Edge families: '
         'metastable / nearly uncoupled chains, 2-state chains, banded chains with 257..300 states (index ids > 255, model skipped), '
-        'entries ~1e-13 next to O(1), self-transition 1-1e-6 / 1-1e-9, a source adjacent only to a sink, sources+sinks = all states '
+        'entries ~1e-13 next to O(1), self-transition 1-1e-6 / 1-1e-9, slowly evolving chains I+2^-k(T-I) k<=40 (exact in binary), '
+        'symmetric chains with one rate off by a relative 1e-5..1e-9 (held to 1e-12), a source adjacent only to a sink, sources+sinks = all states '
         'but one (set sizes > 3), every sink id below every source id in unsorted order, index arguments as '
         'list/tuple/range/python int/numpy scalar/int8/uint8/int16/uint16/int32/int64 arrays, tprob as C/Fortran/negative-stride/'
         'float32/np.matrix, keyword vs positional call, the SAME argument objects reused across consecutive calls. '
@@ -231,6 +232,30 @@ def gen_tiny(rng, n, reversible):
         if reversible:
             C[j][i] = 1
     return _normalise_rows(C)
+
+
+def gen_lazy(rng, n, k):
+    """slowly evolving chain T = I + 2^-k (T0 - I), T0 non-symmetric with entries m/16: every entry is exact in binary64
+    (k <= 48), the stationary vector is that of T0 and every passage time is 2^k times that of T0.  For k >= 26 all
+    off-diagonal entries are below 1e-8, i.e. T is 'numerically symmetric' for absolute-tolerance comparisons."""
+    T0 = gen_chain(rng, n, 'dyadic')
+    e = F(1, 2 ** k)
+    return [[(1 if i == j else 0) + e * (T0[i][j] - (1 if i == j else 0)) for j in range(n)] for i in range(n)]
+
+
+def gen_nearsym(rng, n, p):
+    """symmetric doubly-stochastic chain (entries m/32, uniform stationary vector) with ONE rate raised by 2^-p
+    (relative 1e-5 .. 1e-9) and the same amount taken from another entry of that row: exact in binary64, no longer
+    symmetric, stationary vector no longer uniform (by O(2^-p))"""
+    T = gen_rev_dyadic(rng, n)
+    d = F(1, 2 ** p)
+    cand = [(i, j) for i in range(n) for j in range(n) if i != j and T[i][j] > 0]
+    i, j = cand[int(rng.integers(0, len(cand)))]
+    donors = [l for l in range(n) if l != j and T[i][l] > d]
+    l = i if i in donors else donors[int(rng.integers(0, len(donors)))]
+    T[i][j] += d
+    T[i][l] -= d
+    return T
 
 
 def gen_rev_dyadic(rng, n):
@@ -526,7 +551,7 @@ def check_committors(ctx, case, resp):
     results = {}
     for cont in ['ndarray'] + case['containers']:
         X = to_container(Tf, cont)
-        a_src, a_snk = as_arg(src, case['argform']), as_arg(snk, case['argform'])
+        a_src, a_snk = as_arg(src, case['argform']), as_arg(snk, case.get('argform_sinks', case['argform']))
         before = (snap(X), snap(a_src), snap(a_snk))
         r = run_one(X, a_src, a_snk)
         ctx.tag('container=' + cont)
@@ -635,9 +660,12 @@ def check_mfpts(ctx, case, resp):
     fac, gap = cond_factor(Tf)
     if fac > 1:
         ctx.tag('mfpts slow-mixing gap<1e-%d' % int(np.floor(-np.log10(gap))))
+    # well-conditioned exact-in-binary families are held to 1e-12 (the clean code delivers ~2e-15 there): an error of
+    # relative 1e-9 in the populations must not pass
+    TOL0 = 1e-12 if case.get('tight') else globals()['TOL0']
     pmin = pi_min(Tf)
-    if 1e-4 / pmin > fac:       # column j of the table is ~ 1/pi_j: computed populations are relative-accurate to 1e-16/pi_j
-        fac = 1e-4 / pmin
+    if 1e-3 / pmin > fac:       # column j of the table is ~ 1/pi_j: computed populations are relative-accurate to
+        fac = 1e-3 / pmin       # ~1.5e-14/pi_j (observed), allowed 1e-12/pi_j
         ctx.tag('mfpts rare-state pi_min<1e-%d' % int(np.floor(-np.log10(pmin))))
     TOL, TIGHT = TOL0 * fac, TIGHT0
     MTOL = TOL + 1e-14 / stickiness(Tf)          # comparisons with the exact rational chain
@@ -823,6 +851,18 @@ def sinks_below_sources(rng, n):
     return src, snk
 
 
+def large_sets(rng, n, r):
+    """source/sink sets on a chain with more than 255 states, given with DIFFERENT narrow dtypes: one side fits
+    uint8/int8, the other holds ids above 255 (a wrapped or narrowed index lands on a wrong state)"""
+    hi = [int(x) for x in rng.choice(np.arange(256, n), size=min(2, n - 256), replace=False)]
+    lo = [int(x) for x in rng.choice(np.arange(3, 120), size=3, replace=False)]
+    if r % 3 == 0:
+        return lo[:2], hi + lo[2:], 'uint8', 'uint16'
+    if r % 3 == 1:
+        return hi, lo[::-1], 'int16', 'int8'
+    return lo[:1] + hi[:1], lo[1:] + hi[1:], ['int32', 'tuple', 'list'][(r // 3) % 3], 'uint16'
+
+
 def make_committor_cases(ctx):
     rng = ctx.rng
     cases = []
@@ -904,15 +944,19 @@ def make_committor_cases(ctx):
         T = t_json(gen_chain(rng, n, kind))
         A, B = random_set_pair(rng, n)
         add(kind, T, A, B, list(CONTAINERS) if r % 3 == 0 else one_container(), 'scale', reuse=(r % 2 == 0))
+    # slowly evolving chains (committors are invariant under T -> I + 2^-k (T - I))
+    for r in range(ctx.n(6, 120)):
+        n = int(rng.integers(3, 9))
+        k = [26, 30, 34, 16, 40, 28][r % 6]
+        A, B = random_set_pair(rng, n)
+        add('lazy', t_json(gen_lazy(rng, n, k)), A, B, one_container() + [dense_variant('lazy', r)], 'lazy')
     # more than 255 states: ids that do not fit int8/uint8, banded chain, oracle only (exact model too slow)
-    for r in range(ctx.n(2, 12)):
+    for r in range(ctx.n(3, 12)):
         n = LARGE_N[r % len(LARGE_N)]
         seed = int(rng.integers(0, 2 ** 31))
-        hi = [int(x) for x in rng.choice(np.arange(256, n), size=min(2, n - 256), replace=False)]
-        lo = [int(x) for x in rng.choice(256, size=3, replace=False)]
-        A, B = (hi[:1] + lo[:1], hi[1:] + lo[1:]) if r % 2 == 0 else (lo[:2], hi + lo[2:])
+        A, B, fa, fb = large_sets(rng, n, r)
         add('banded', {'family': 'banded', 'n': n, 'seed': seed}, A, B, list(CONTAINERS), 'large-n',
-            argform=['uint16', 'int16', 'int32', 'uint8', 'list', 'tuple'][r % 6], reuse=(r == 0))
+            argform=fa, argform_sinks=fb, reuse=(r == 0))
     return cases
 
 
@@ -980,6 +1024,17 @@ def make_mfpt_cases(ctx):
         else:
             T = gen_chain(rng, n, kind)
         add(kind, t_json(T), r, LAGS, 'scale', reuse=True)
+    # slowly evolving chains I + 2^-k (T0 - I): every off-diagonal entry tiny (below 1e-8 for k >= 26), exact in binary
+    KS = [26, 30, 28, 34, 8, 32, 16, 27, 24, 40, 29, 20]
+    for r in range(ctx.n(12, 240)):
+        n = int(rng.integers(3, 9))
+        k = KS[r % len(KS)]
+        add('lazy', t_json(gen_lazy(rng, n, k)), r, LAGS, 'lazy-2^-%d' % k if k >= 26 else 'lazy-k<26')
+    # symmetric chains with one rate off by a relative 1e-5 .. 1e-9 (exact dyadic perturbation); tolerance 1e-12
+    for r in range(ctx.n(12, 240)):
+        n = int(rng.integers(3, 9))
+        p = 20 + (r * 5) % 14
+        add('nearsym', t_json(gen_nearsym(rng, n, p)), r, LAGS, 'near-symmetric', tight=True)
     # more than 255 states (reversible banded; exact populations in closed form; oracle only)
     for r in range(ctx.n(1, 4)):
         n = LARGE_N[r % len(LARGE_N)]
@@ -1016,9 +1071,9 @@ def run(ctx):
                             'float32_populations': '1e-5 relative (they are stationary only to 6e-8)'})
 
 
-REPLAY_KEYS = {'committors': ('check', 'kind', 'T', 'Tgen', 'model', 'sources', 'sinks', 'containers', 'argform',
+REPLAY_KEYS = {'committors': ('check', 'kind', 'T', 'Tgen', 'model', 'sources', 'sinks', 'containers', 'argform', 'argform_sinks',
                               'callstyle', 'reuse', 'mode'),
-               'mfpts': ('check', 'kind', 'T', 'Tgen', 'model', 'lags', 'sink_sets', 'containers', 'popform', 'reuse',
+               'mfpts': ('check', 'kind', 'T', 'Tgen', 'model', 'lags', 'sink_sets', 'containers', 'popform', 'reuse', 'tight',
                          'mode')}
 
 
